@@ -389,6 +389,7 @@ func (e *Enc) store(cur *cursor, addr, val Val, pos token.Pos, addrV ssa.Value) 
 		if e.tinvName(addr.SI.named) != "" {
 			e.tinvAssumeLoad(cur, addr.Base, addr.SI.named)
 		}
+		e.storeRuleOblige(cur, addr.Base, addr.SI.name+"."+addr.SI.st.Field(addr.Field).Name(), pos)
 		n, s := e.fieldArr(addr.SI, addr.Field)
 		e.heapSet(st, n, s, fmt.Sprintf("(store %s %s %s)", e.heapGet(st, n, s), addr.Base, vt))
 		if !(e.isFreshAddr(addr.Base) && e.moreInitStores(cur, addrV)) {
@@ -410,6 +411,7 @@ func (e *Enc) store(cur *cursor, addr, val Val, pos token.Pos, addrV ssa.Value) 
 		if !isNonNilValue(addrV) {
 			e.safety(cur, "nil", fmt.Sprintf("(not (= %s Nil))", a), pos, "nil dereference on store")
 		}
+		e.storeRuleOblige(cur, a, "*"+types.TypeString(pt.Elem(), func(*types.Package) string { return "" }), pos)
 		e.storeAt(st, a, pt.Elem(), vt)
 		if _, isVar := isLocalVarAlloc(addrV); isVar {
 			return // checked when the variable's address is published
@@ -980,4 +982,27 @@ func (e *Enc) next(cur *cursor, x *ssa.Next) {
 	}
 	st.iter[r] = e.define("iter", "(Array "+ks+" Bool)", fmt.Sprintf("(ite %s (store %s %s true) %s)", okT, visited, k, visited))
 	fc.vals[x] = Val{K: vTuple, Tuple: []Val{term(okT, tt.At(0).Type()), term(k, tt.At(1).Type()), term(v, tt.At(2).Type())}}
+}
+
+// storeRuleOblige generates, for each storesonly rule of the function under verification, the obligation
+// that this store (by the function's own body or an inlined callee) goes to an object allocated during the
+// call or to an allowed field.
+func (e *Enc) storeRuleOblige(cur *cursor, base, what string, pos token.Pos) {
+	if e.contract == nil || len(e.contract.StoresOnly) == 0 {
+		return
+	}
+	for _, r := range e.contract.StoresOnly {
+		if r.Allowed[what] {
+			continue
+		}
+		goal := "false"
+		if r.Allowed["fresh"] {
+			if e.isFreshAddr(base) {
+				continue
+			}
+			goal = fmt.Sprintf("(>= (rootid %s) $alloc@in)", base)
+		}
+		tag := "stores:" + r.Label
+		e.oblige(cur.guard, "stores", fmt.Sprintf("%s#%d", r.Label, e.ordinal(tag)), goal, r.Props, pos, "the function itself stores only to: "+r.Src+" (store to "+what+")")
+	}
 }
